@@ -70,6 +70,8 @@ def traced(obj, func, args, code, var):
     def local(frame, event, arg):
         if event == "line":
             events.append(("line", frame.f_lineno, content()))
+        elif event == "exception":
+            events.append(("exception", frame.f_lineno, content()))
         elif event == "return":
             events.append(("return", frame.f_lineno, content()))
             state["done"] = True
@@ -114,7 +116,7 @@ def networks(ctx, quick):
     from pyunicorn.core import Network
     rng = ctx.rng
     for rep in range(10 if quick else 60):
-        n = rng.choice([2, 3, 4, 5, 6, 7, 8])
+        n = rng.choice([2, 3, 4, 5, 6, 7, 8]) if rep > 1 else 2 + rep
         directed = rng.random() < 0.3
         kind = rng.choice(["ring", "split", "random", "random", "hub", "sparse"])
         A = np.zeros((n, n), dtype=int)
@@ -173,6 +175,7 @@ def window_tie(ctx, eff, quick):
                    f"variables, {len(wins)} blocks)", "translator",
                    restored == {w["site"] for w in wins}, str(sorted(restored ^ {w["site"] for w in wins})))
     reqs, impl, missed, undriven = [], [], [], []
+    rreqs, rimpl = [], []
     n_calls_seen = 0
     for w in wins:
         modname = "pyunicorn." + w["module"][:-3].replace("/", ".")
@@ -266,6 +269,16 @@ def window_tie(ctx, eff, quick):
                     cval = -1 if np.isinf(cval) else int(cval)
                 except Exception:  # noqa
                     cval = None
+                if enc0 is not None and cval is not None and outcome[0] == "raised":
+                    # the model run with the same statement raising: final content, control left
+                    exc = [e for e in events if e[0] == "exception"]
+                    ks = [k for k, s in enumerate(steps) if exc and not s.get("marker")
+                          and s["line"] <= exc[0][1] <= s["end"] and s["kind"] in ("comp", "call", "exit")]
+                    encf = encode(final)
+                    if ks and encf is not None:
+                        rreqs.append(f'wraise {w["site"]} {cval} {ks[0]} {mat(enc0)}')
+                        rimpl.append(flat(encf) + "|1")
+                        ctx.count(f"window:{key}:raising-run-compared")
                 if enc0 is None or cval is None or outcome[0] != "ok":
                     ctx.count(f"window:{key}:not-encodable")
                     continue
@@ -309,6 +322,9 @@ def window_tie(ctx, eff, quick):
     ctx.correspond("content of the cached array before every statement of the blocks with a "
                    "temporary edit, and at the return: compiled model (setMask / fillDiag over the "
                    "regenerated steps) = real execution traced line by line", reqs, impl)
+    ctx.correspond("runs in which a computation inside the block raises: compiled model (the same "
+                   "step raising) = real execution: content of the cached array afterwards, control "
+                   "has left", rreqs, rimpl)
     ctx.obligation(f"every call into package code made from a block with a temporary edit is a "
                    f"`call` step of its statement ({n_calls_seen} package frames observed while the "
                    f"methods ran)", "correspondence", not missed, "\n".join(sorted(set(missed))[:8]))
